@@ -14,7 +14,7 @@ from vlib import bodygen as bgm
 from vlib.harness import result, digest, violation
 
 PID = 'C04'
-RULE = ("seeded random clocked designs (plain bodies and coroutines) with a reset (4 polarity/synchronicity combinations, noreset / no-default objects, step_cond, on_reset via kw / SequentialContext / call) of 4..20 statements, nesting <=2; each is explored breadth first over (vsim state, "
+RULE = ("seeded random clocked designs (plain bodies and coroutines) with a reset (4 polarity/synchronicity combinations, noreset / no-default objects, NoresetSignal / Signal of a record type, clock and reset as two elements of one vector, step_cond, on_reset via kw / SequentialContext / call) of 4..20 statements, nesting <=2; each is explored breadth first over (vsim state, "
         "reference state) with all input valuations per state up to an edge budget, then 200/1000 random clocks. "
         "distinct_nontrivial = distinct (feature set, statement count, states reached) of designs that were accepted, "
         "compared without model error and reached >=3 joint states.")
